@@ -80,6 +80,12 @@ def run():
     good = c11.push_advance_sites(f.fn(CR + '::cursor_follows_push'))
     ok &= need(len(st) == 3 and sum(1 for _, _, bad in st if bad) == 1, 'PUSH-ADVANCE (must-derive dataflow) sees the separator attached before the following element is parsed (%d sites, %d offending)' % (len(st), sum(1 for _, _, bad in st if bad)))
     ok &= need(len(good) == 3 and not any(bad for _, _, bad in good), 'PUSH-ADVANCE is silent when separator and element are attached together')
+    ush = f.fn(CR + '::uses_scope_helper')
+    inl = f.inlined(ush, keep=('check_small',))
+    pushes = P.call_blocks(inl, 'Vec::push')
+    pops = [b for b, _ in P.call_blocks(inl, 'Vec::pop')]
+    ok &= need(inl is not ush and len(pushes) == 1 and len(pops) == 1 and not P.call_blocks(ush, 'Vec::push'), 'inliner splices a private helper into its caller (push and pop become visible there)')
+    ok &= need(bool(pushes) and not P.success_return_reachable(inl, pushes[0][1]['target'], pops), 'in the inlined view the helper\'s `?` exit is an error exit: no successful return skips the pop')
     return ok, msgs
 
 
